@@ -1,7 +1,7 @@
 import sys,time,signal; sys.path.insert(0,'/verif')
 from pyvc.repo import Repo; from pyvc.engine import Engine; from pyvc.contracts import Spec, verify_function
 import os, cProfile, pstats
-repo=Repo(os.environ.get('REPO','/repo')); spec=Spec(); spec.load_dir('/verif/contracts',{'PRICES':[1],'BETDAQ_PRICES':[1]})
+repo=Repo(os.environ.get('REPO','/repo')); spec=Spec(); spec.load_dir('/verif/contracts',{'PRICES':[1],'BETDAQ_PRICES':[1],'PRICES_FLOAT':[1,2]})
 eng=Engine(repo,spec)
 c=spec.contracts[sys.argv[1]]
 pr=cProfile.Profile()
